@@ -363,6 +363,10 @@ def run_harness(progs, bound, opcode, p: core.Part, max_schedules=None):
                 "script": "from checks import c26\nc26.replay_conc(%r, %r, %r)\n" % (progs, list(x.choices), opcode),
             })
 
+    if opcode:
+        # the interpreter instruments a code object for opcode events lazily: one discarded execution so that
+        # the first recorded trace and its replay see the same instrumentation state
+        make_run(())
     n, capped = e3.explore(make_run, bound, on_execution, max_schedules=max_schedules)
     for k in outcomes:
         p.sig(("conc", progs, k))
